@@ -7,8 +7,8 @@ Local Open Scope N_scope.
 Notation length := List.length.
 
 (* The model instance that corresponds to /repo's working tree: cesium.DeleteChannels removes
-   virtual channels (tree after fix F9). *)
-Definition tree_fixed : bool := false.
+   virtual channels (fix F9) and a forwarded create does not add a second auto index (fix F16). *)
+Definition tree_fixed : bool := true.
 
 (* ---- raw observations (as printed by the harness) *)
 (* name lease dt isidx lkey lidx virt internal expr *)
